@@ -48,6 +48,21 @@ def gen_cases(tier, seed):
     for p, B, G in [(2, 2, 4), (3, 2, 4)]:
         for kv in A.clamped_kvs(p, B, G):
             cases.append(dict(kind='normalize', p=p, kv=kv))
+    # ---- data variety (DESIGN §6, wave 5): decimal / 1/7 knots, ranges far from [0,1] and very short ranges; the same vectors
+    # given as tuples or with integer knots given as ints; spans as short as one ulp, 1e-9, 1e-8
+    for p in (1, 2, 3):
+        for kv, _ in A.odd_kvs(p, 2):
+            cases.append(dict(kind='kv', p=p, kv=kv, unclamped=False, variety='odd'))
+            cases.append(dict(kind='normalize', p=p, kv=kv, variety='odd', as_type='tuple'))
+        for kv in A.clamped_kvs(p, 2, 4):
+            cases.append(dict(kind='kv', p=p, kv=kv, unclamped=False, variety='types', as_type='tuple'))
+        for n in (p + 1, p + 3):
+            for kv in A.unclamped_kvs(p, n):
+                cases.append(dict(kind='kv', p=p, kv=kv, unclamped=True, variety='types', as_type='int'))
+                cases.append(dict(kind='kv', p=p, kv=kv, unclamped=True, variety='types', as_type='tuple'))
+        one, zero = [1.0] * (p + 1), [0.0] * (p + 1)
+        for interior in ([0.3, 0.1 + 0.2], [1e-9, 0.5], [0.5, 0.5 + 1e-8], [0.25, 0.25 + 2.0 ** -40, 0.75]):
+            cases.append(dict(kind='kv', p=p, kv=zero + interior + one, unclamped=False, variety='tiny_span', tiny=True))
     return cases
 
 
@@ -72,15 +87,25 @@ def _kv_case(case, ctx):
     U = tuple(F(x) for x in kv)
     lo, hi = U[p], U[n]
     interior = n > p + 1
-    ctx.state(dict(p=p, kv=kv), nontrivial=interior or case['unclamped'])
-    params = A.params_for(p, kv)
+    ctx.state(dict(p=p, kv=kv, t=case.get('as_type')), nontrivial=interior or case['unclamped'])
+    tiny = bool(case.get('tiny'))
+    if case.get('as_type') == 'tuple':
+        kv = tuple(kv)
+    elif case.get('as_type') == 'int':
+        kv = [int(k) if float(k).is_integer() else k for k in kv]
+    from geomdl import knotvector
+    ctx.check('C03.check.accepts', knotvector.check(p, kv, n) is True, case, dict(p=p, variety=case.get('variety'), as_type=case.get('as_type')),
+              True, False)
+    params = A.params_for(p, [float(k) for k in kv])
+    if tiny:
+        params = sorted(set(params + [float(k) for k in kv]))
     if 'params' in case:
         params = case['params']
     only = case.get('only')  # replay of a single parameter
     spans_model = []
     for u in params:
         uf = F(u)
-        feats = dict(p=p, unclamped=case['unclamped'], at_end=(uf == hi), at_knot=(uf in U))
+        feats = dict(p=p, unclamped=case['unclamped'], at_end=(uf == hi), at_knot=(uf in U), variety=case.get('variety'))
         rc = dict(case, params=[u])
         s = R.find_span(p, U, uf)
         spans_model.append(s)
@@ -88,8 +113,9 @@ def _kv_case(case, ctx):
                   helpers.find_span_linear(p, kv, n, u))
         ctx.check('C03.span.binary', helpers.find_span_binsearch(p, kv, n, u) == s, rc, feats, s,
                   helpers.find_span_binsearch(p, kv, n, u))
-        ctx.check('C03.multiplicity', helpers.find_multiplicity(u, kv) == R.multiplicity(U, uf), rc, feats,
-                  R.multiplicity(U, uf), helpers.find_multiplicity(u, kv))
+        if not tiny:      # knots closer than the library's multiplicity tolerance: the count is the tolerance's business (§5)
+            ctx.check('C03.multiplicity', helpers.find_multiplicity(u, kv) == R.multiplicity(U, uf), rc, feats,
+                      R.multiplicity(U, uf), helpers.find_multiplicity(u, kv))
         # values
         _, rows = R.basis_values(p, U, uf, p)
         N = helpers.basis_function(p, kv, s, u)
@@ -120,7 +146,7 @@ def _kv_case(case, ctx):
         ctx.close('C03.basis.all_vs_span', [allN[j][p] for j in range(p + 1)], N, 1e-12, 1.0, rc, feats)
         # derivatives (orders 0..p)
         hmin = min(float(U[i + 1] - U[i]) for i in range(p, n) if U[i] < U[i + 1])
-        for order in range(0, p + 1):
+        for order in range(0, 1 if tiny else p + 1):
             ders = helpers.basis_function_ders(p, kv, s, u, order)
             fo = dict(feats, order=order)
             ctx.check('C03.ders.shape', len(ders) == order + 1 and all(len(r) == p + 1 for r in ders), rc, fo,
@@ -130,7 +156,7 @@ def _kv_case(case, ctx):
                 ctx.close('C03.ders.value', ders[kk], rows[kk], TOL, sc, rc, dict(fo, k=kk))
                 if kk >= 1:
                     ctx.check('C03.ders.sum0', abs(sum(ders[kk])) <= 1e-9 * sc, rc, dict(fo, k=kk), 0.0, sum(ders[kk]))
-        if not at_end:
+        if not at_end and not tiny:
             for i in range(n):
                 d1 = helpers.basis_function_ders_one(p, kv, i, u, p)
                 if s - p <= i <= s:
@@ -146,13 +172,13 @@ def _kv_case(case, ctx):
     ctx.check('C03.span.find_spans', list(sp_lin) == spans_model and list(sp_bin) == spans_model, case, dict(p=p),
               spans_model, [sp_lin, sp_bin])
     bl = helpers.basis_functions(p, kv, spans_model, params)
-    dl = helpers.basis_functions_ders(p, kv, spans_model, params, p)
+    dl = helpers.basis_functions_ders(p, kv, spans_model, params, 0 if tiny else p)
     ok = len(bl) == len(params) and len(dl) == len(params)
     if ok:
         for idx, u in enumerate(params):
             if list(bl[idx]) != list(helpers.basis_function(p, kv, spans_model[idx], u)):
                 ok = False
-            if [list(r) for r in dl[idx]] != [list(r) for r in helpers.basis_function_ders(p, kv, spans_model[idx], u, p)]:
+            if [list(r) for r in dl[idx]] != [list(r) for r in helpers.basis_function_ders(p, kv, spans_model[idx], u, 0 if tiny else p)]:
                 ok = False
     ctx.check('C03.basis.list_variants', ok, case, dict(p=p), 'list variants equal the single-parameter calls', None)
 
@@ -208,6 +234,18 @@ def _normalize_case(case, ctx):
     from geomdl import knotvector
     kv = case['kv']
     ctx.state(case, nontrivial=True)
+    if case.get('variety') == 'odd':
+        # any range given as list or tuple: the result is the affine image on [0,1], ends exact
+        lo, hi = F(kv[0]), F(kv[-1])
+        exp = [(F(k) - lo) / (hi - lo) for k in kv]
+        for raw in (list(kv), tuple(kv)):
+            out = knotvector.normalize(raw)
+            feats = dict(variety='odd', as_type=type(raw).__name__)
+            ctx.close('C03.normalize.values', out, exp, 1e-15, 1.0, case, feats)
+            ctx.check('C03.normalize.ends', len(out) == len(kv) and out[0] == 0.0 and out[-1] == 1.0, case, feats, (0.0, 1.0),
+                      (out[0], out[-1]) if len(out) else None)
+            ctx.check('C03.normalize.input_unchanged', list(raw) == list(kv), case, feats)
+        return
     for a, s in A.AFFINE:
         raw = A.affine_kv(kv, a, s)
         first = knotvector.normalize(raw)
